@@ -184,7 +184,7 @@ pub fn gen(rng: &mut Rng, thorough: bool) -> SeqProgram {
         4 => HashKind::Identity,
         5 => HashKind::Mod(rng.range(1, 4) as u32),
         6 => HashKind::Split(rng.range(1, 3) as u32),
-        _ => HashKind::Const,
+        _ => HashKind::Mixed(rng.range(2, 4) as u32),
     };
     let set = rng.chance(1, 4);
     let capacity = *rng.pick(&[0u32, 0, 1, 2, 3, 7, 10, 16, 20, 33, 42, 43, 64, 70]);
